@@ -1992,7 +1992,7 @@ class Tensor:
             creator._view_children = WeakRefIterable(
                 [
                     w if w is not self else graph.base.placeholder
-                    for w in graph.base.placeholder._view_children
+                    for w in creator._view_children
                 ]
             )
 
